@@ -165,7 +165,7 @@ def monStep (s : S) (op : Op) (a : Ans) : S × Verdict :=
   match op with
   | .failat _ | .failfrom _ | .failoff => okOr s (a.isJust .ok) "answer"
   | .end_ =>
-    if a.head == .end_ && a.ntoks == 3 && a.live == some 0 && a.leaked == some 0 then ({}, none)
+    if a.head == .end_ && a.ntoks == 3 && a.live == some 0 && a.leaked == some 0 then ({ mpSize := s.mpSize }, none)
     else (s, some "memory still allocated after every object was released with its free call")
   -- ---------------------------------------------------------------- elastic array
   | .eaInit n r seed =>
